@@ -133,6 +133,16 @@ def wire(value, o):
         raise
 
 
+def scribble(uri):
+    """what an in-process caller may do with the answer of a lookup: it is the caller's own object (the library's tests edit it to
+    reach the daemon object of the same location); nobody else's later answer may show it"""
+    try:
+        uri.object = "Pyro.Daemon"
+        uri.port = 1
+    except Exception:
+        pass
+
+
 def apply_op(ns, o, errors):
     op = o["op"]
     nm = name_str(o["name"]) if "name" in o else None
@@ -156,10 +166,16 @@ def apply_op(ns, o, errors):
             return res("count", n=wire(n, o))
         if op == "lookup":
             if o["meta"]:
-                uri, tg = wire(ns.lookup(nm, return_metadata=True), o)
-                return res("entry", uri=URI_INV.get(str(uri), -1), tags=[TAG_INV.get(t, -1) for t in tg])
-            uri = wire(ns.lookup(nm), o)
-            return res("entry", uri=URI_INV.get(str(uri), -1))
+                got = ns.lookup(nm, return_metadata=True)
+                uri, tg = wire(got, o)
+                r = res("entry", uri=URI_INV.get(str(uri), -1), tags=[TAG_INV.get(t, -1) for t in tg])
+                scribble(got[0])
+                return r
+            got = ns.lookup(nm)
+            uri = wire(got, o)
+            r = res("entry", uri=URI_INV.get(str(uri), -1))
+            scribble(got)
+            return r
         if op == "list":
             if o["sel"] == "all":
                 d = ns.list(return_metadata=o["meta"])
@@ -384,6 +400,19 @@ def run(ctx):
                 traces.append(pre + [pair.step(o, errors)])
                 metas.append({"part": "single", "setup": si, "op": o, "table": 0})
                 ctx.count(("single", si, json.dumps(o, sort_keys=True)))
+        # (a+) every reading operation asked twice in a row: the second answer is the first one again, whatever the first caller
+        # has done with the object it was handed
+        for si, setup in enumerate(SETUPS):
+            pair = Pair(nameserver, dbdir, "r%d" % si)
+            pre = [pair.step(o, errors) for o in setup]
+            snap = pair.snapshot()
+            for oi, o in enumerate(singles):
+                if o["op"] not in ("lookup", "list", "yplookup") or (ctx.quick and o["op"] != "lookup" and (oi + si) % 4):
+                    continue
+                pair.restore(snap)
+                traces.append(pre + [pair.step(o, errors), pair.step(o, errors)])
+                metas.append({"part": "single", "setup": si, "op": o, "table": 0, "twice": True})
+                ctx.count(("twice", si, json.dumps(o, sort_keys=True)))
         # (a') the same operations with the other character tables (quick: one other table per operation, by rotation)
         for tk in range(1, len(TABLES)):
             use_table(tk)
